@@ -53,6 +53,12 @@ def build(fixdir):
     if os.path.isdir(os.path.join(CAT, 'annotated')):
         api = specs_to_ir(read_specs('annotated'))
         _compile(api, 'python_types', ['-p', 'anngen'], os.path.join(fixdir, 'anngen'))
+    if os.path.isdir(os.path.join(CAT, 'client2')):
+        api = specs_to_ir(read_specs('client2'))
+        _compile(api, 'python_types', ['-p', 'cl2gen'], os.path.join(fixdir, 'cl2gen'))
+        api = specs_to_ir(read_specs('client2'))
+        _compile(api, 'python_client', ['-m', 'cl2client', '-c', 'Cl2Client', '-t', 'cl2gen'],
+                 os.path.join(fixdir, 'cl2gen'))
     if os.path.isdir(os.path.join(CAT, 'holes')):
         api = specs_to_ir(read_specs('holes'))
         _compile(api, 'python_types', ['-p', 'exgen'], os.path.join(fixdir, 'exgen'))
